@@ -23,9 +23,33 @@
    melt quotes, esett = 1 iff the backend reports the quote's invoice settled, cnt id cred = internal settlements credited to it.
 *)
 From Coq Require Import ZArith List Bool.
-From Verif Require Import Model Sem InvDb InvSwap InvMint InvMelt Corollaries Queries Footprint HRel Global GlobalQuote GlobalValue GlobalErr GlobalQuery GlobalMelt GlobalKeys Cuts CutOrder Conc Races GlobalBalance.
+From Verif Require Import Model Sem InvDb InvSwap InvMint InvMelt Corollaries Queries Footprint HRel Global GlobalQuote GlobalValue GlobalErr GlobalQuery GlobalMelt GlobalKeys Cuts CutOrder Conc Races GlobalBalance GlobalLedger Reconf.
 Import ListNotations.
 Open Scope Z_scope.
+
+Theorem C02_no_inflation_ledger : forall (cfg : config) (h : list op),
+       cfg_ok cfg ->
+       honest cfg world0 h ->
+       Forall op_u64 h ->
+       ln_ok cfg world0 h ->
+       let
+       '(w, ip) := ltrace cfg world0 h [] in
+        vS w + ext_out w (map fst ip) <= vR w + per_quote (esett w) (d_mq (w_db w)) /\
+        NoDup (map fst ip) /\
+        (forall p : Z * Z, In p ip -> exists q : lquote, In q (d_lq (w_db w)) /\ lq_id q = fst p /\ lq_state q = 2).
+Proof. exact @no_inflation_ledger. Qed.
+Print Assumptions C02_no_inflation_ledger.
+
+Theorem C02_ledger_history_ok : cfg_ok ledger_cfg /\
+       honest ledger_cfg world0 ledger_history /\
+       Forall op_u64 ledger_history /\
+       ln_ok ledger_cfg world0 ledger_history /\
+       (let
+        '(w, ip) := ltrace ledger_cfg world0 ledger_history [] in
+         ip = [(113, 111)] /\
+         (vS w, vR w, ext_out w (map fst ip), per_quote (esett w) (d_mq (w_db w))) = (96, 64, 0, 64)).
+Proof. exact @ledger_history_ok. Qed.
+Print Assumptions C02_ledger_history_ok.
 
 Theorem C02_no_inflation : forall (cfg : config) (h : list op),
        cfg_ok cfg ->
@@ -39,6 +63,18 @@ Theorem C02_no_inflation : forall (cfg : config) (h : list op),
         (forall q : lquote, In q (d_lq (w_db w)) -> lq_state q <> 1 -> rows_of_quote (lq_id q) (w_db w) = []).
 Proof. exact @no_inflation. Qed.
 Print Assumptions C02_no_inflation.
+
+Theorem C02_no_inflation_reconf : forall (segs : list (config * list op)) (w : world) (iss cred : list Z),
+       segs_ok w segs ->
+       QInv w iss cred ->
+       VI iss w ->
+       let
+       '(w', iss', cred') := qtrace_cfgs w segs iss cred in
+        QInv w' iss' cred' /\
+        VI iss' w' /\
+        vS w' + vOut w' <= vR w' + per_quote (fun m : mquote => esett w' m + cnt (mq_id m) cred') (d_mq (w_db w')).
+Proof. exact @no_inflation_reconf. Qed.
+Print Assumptions C02_no_inflation_reconf.
 
 Theorem C02_swap_cut_signatures_imply_spent : forall (mem_ks : list ksrow) (active : Z) (ins : list proof) (outs : list bmsg) 
          (sg : bool) (n : nat) (f : oracle) (w : world),
